@@ -147,6 +147,25 @@ def build_harness(name, sources, flags=(), cc='gcc', libs=()):
         os.rename(exe + '.tmp', exe)
     return True, exe, ''
 
+def instrument_hc():
+    """a COPY of /repo's current lib/lz4hc.c with four log points (the answers of the two match finders of LZ4HC_compress_hashChain and every encoded
+    sequence): the input of the oracle model lean/LZ4V/HC.  /repo is not touched; a missing anchor text = the instrumentation (the tie) is broken."""
+    gdir = os.path.join(CACHE, 'gen_hc'); os.makedirs(gdir, exist_ok=True)
+    src = open(os.path.join(REPO, 'lib', 'lz4hc.c')).read()
+    reps = [("        m1 = LZ4HC_InsertAndFindBestMatch(ctx, ip, matchlimit, maxNbAttempts, patternAnalysis, dict);\n",
+             "        m1 = LZ4HC_InsertAndFindBestMatch(ctx, ip, matchlimit, maxNbAttempts, patternAnalysis, dict);\n        VLOG_B(ip, m1);\n"),
+            ("            start2 += m2.back;\n", "            VLOG_W(start2, ip, m1.len, m2); start2 += m2.back;\n"),
+            ("            start3 += m3.back;\n", "            VLOG_W(start3, start2, m2.len, m3); start3 += m3.back;\n"),
+            ("    BYTE* const token = op++;\n", "    BYTE* const token = op++;\n    VLOG_E(anchor, ip, matchLength, offset);\n")]
+    for a, b in reps:
+        if src.count(a) != 1: return None, 'instrumentation anchor not found exactly once: %r' % a.strip()
+        src = src.replace(a, b)
+    out = os.path.join(gdir, 'lz4hc_verif.c')
+    if not os.path.exists(out) or open(out).read() != src:
+        with open(out + '.tmp', 'w') as f: f.write(src)
+        os.rename(out + '.tmp', out)
+    return gdir, ''
+
 def workdir(prop, tier):
     d = os.path.join(CACHE, 'work', '%s_%s_%d' % (prop, tier, os.getpid()))
     shutil.rmtree(d, ignore_errors=True); os.makedirs(os.path.join(d, 'fails'))
